@@ -198,7 +198,8 @@ package period
 //@ let y = num(yyyyWww[0:4])
 //@ let w = num(yyyyWww[6:len(yyyyWww)])
 //@ use weekOfYear(y, w)
-//@ ensures (result1 == nil) == (m && 1 <= w && w <= klog.isoweek(dn(y, 12, 28)))
+//@ ensures implies(result1 == nil, m && 1 <= w && w <= klog.isoweek(dn(y, 12, 28)))
+//@ ensures implies(m && 1 <= w && w <= klog.isoweek(dn(y, 12, 28)), result1 == nil)
 //@ ensures implies(result1 == nil, isdate(result0.date) && klog.isoweek(klog.ddn(result0.date)) == w && klog.isoyear(klog.ddn(result0.date)) == y && wk(klog.ddn(result0.date)) == 0)
 
 //@ func NewWeekFromString$1
